@@ -52,6 +52,7 @@ EXTENDS Integers, Sequences, FiniteSets
 
 Canon(i) == i + 1
 Max2(a, b) == IF a > b THEN a ELSE b
+Min2(a, b) == IF a < b THEN a ELSE b
 
 \* retention floor of a node: trusted = TrustedHeader.Index (0 = none); rub = RemoveUntraceableBlocks
 Floor(trusted, rub, mtb, bh) == Max2(trusted, IF rub THEN bh - mtb + 1 ELSE 0)
@@ -66,7 +67,8 @@ TipCodeOK(hh, floor, c) == hh >= floor => c = Canon(hh)
 
 (* ---- segment form (used on traces of the real node) ---- *)
 ForeignFree(segs)            == \A s \in segs : s.k # "o"
-Retained(hh, floor, segs)    == \A s \in segs : s.k = "z" => (s.a > hh \/ s.b < floor)
+\* no index of a zero segment lies inside floor..hh
+Retained(hh, floor, segs)    == \A s \in segs : s.k = "z" => Max2(s.a, floor) > Min2(s.b, hh)
 NothingBeyondTip(hh, segs)   == \A s \in segs : s.k = "c" => s.b <= hh
 
 HeightBound(hh, bh, acchh, accbh) == hh <= acchh /\ bh <= accbh
